@@ -1,3 +1,71 @@
 """Per-property configuration of the monitors (engine, runs, non-vacuity thresholds, evidence texts)."""
 
-CHECKS = {}
+T = {"quick": 900, "thorough": 5400}
+
+CHECKS = {
+    "C01": dict(
+        claim="Exploration: held on N generated executions per run (counts in the evidence file). A running-balance monitor over the postings the real VM emits, for generated programs aimed at the overdraft floor (hot accounts, nested caps, bounded/unbounded overdraft, negative and >64-bit balances), plus the rejection class against an independent reference. Not a proof; reach is the generator's.",
+        note="Trusted: the harness' extraction of overdraft grants from its own AST, the reference evaluator for 'sources cannot cover', vm.StaticStore as store. Commander-level 'no log on rejection' is covered by C06.",
+        technique='runtime invariant monitor over emitted postings + differential rejection class, generated workloads',
+        engine="vmmon", level="exploration",
+        runs=[dict(mode="", shards={"quick": 8, "thorough": 16}, timeout=T)],
+        thresholds={"quick": {"evaluations": 3000, "real_ok": 800, "real_insufficient": 200, "tight_floor": 100},
+                    "thorough": {"evaluations": 250000, "real_ok": 60000, "real_insufficient": 15000, "tight_floor": 8000}},
+        rule="generated multi-send Numscript programs over 3 hot accounts (nested ordered/capped/portioned sources, bounded and unbounded "
+             "overdraft, save, variables incl. balance()/meta(), balances 0/negative/>64 bit) executed by the real compile->bind->resolve->run "
+             "pipeline; oracle = running-balance replay of the emitted postings against the overdraft the script grants (largest written bound per "
+             "account/asset) + rejection class against the reference evaluator; distinct_nontrivial = distinct (script, vars, balances) that were "
+             "accepted with >=1 posting",
+        assumptions=["overdraft grants are read off the generated AST by the harness", "vm.StaticStore stands in for the ledger store",
+                     "reference evaluator (numgen/ref.go) decides whether a shortfall exists"],
+    ),
+    "C03": dict(
+        claim='Exploration: structural invariants (exact total, caps, floored shares with leftover to earliest, source order, no negative posting) checked on every accepted single-send program of a generator covering nested ordered/capped/portioned sources and destinations, kept, remaining, variable portions, amounts 0..>64 bit.',
+        note="Trusted: the split rule and capacity computation in numgen/ref_api.go (independent of the VM). Programs whose leaves share accounts are covered by C08's differential check instead.",
+        technique='runtime invariant monitor over postings of generated single-send programs',
+        engine="vmmon", level="exploration",
+        runs=[dict(mode="", shards={"quick": 8, "thorough": 16}, timeout=T)],
+        thresholds={"quick": {"evaluations": 3000, "real_ok": 1200, "with_leftover_units": 150, "source_ran_dry_midlist": 60, "with_kept": 150, "send_all_checked": 200, "over_64bit": 20},
+                    "thorough": {"evaluations": 250000, "real_ok": 100000, "with_leftover_units": 10000, "source_ran_dry_midlist": 4000, "with_kept": 10000}},
+        rule="generated single-send programs (nesting depth <= 4) in which every source leaf and destination leaf uses its own account, so totals, "
+             "caps, shares and source order are read directly off the postings; expected shares from the split rule (floor + leftover to earliest); "
+             "distinct_nontrivial = distinct accepted cases that moved a non-zero amount",
+        assumptions=["split rule and capacity computation of the harness (numgen/ref_api.go)", "vm.StaticStore stands in for the ledger store"],
+    ),
+    "C08": dict(
+        claim='Translation validation by differential execution: each generated program is compiled+run by the repository and interpreted by an independent reference; outcome class, postings, metadata must agree; rule-breaking programs must be refused; second compilation and cached/concurrent use (race detector on) must behave like a fresh compilation.',
+        note='Trusted: the reference evaluator and its normalisation (zero postings dropped, adjacent equal postings merged). One input class is a known finding (ordered destination with kept before capped entries is refused by the VM).',
+        technique='differential testing against executable reference model + race detector on the compilation cache',
+        engine="vmmon", level="translation_validation",
+        runs=[dict(mode="", shards={"quick": 8, "thorough": 16}, timeout=T),
+              dict(mode="cache", race=True, shards={"quick": 4, "thorough": 16}, timeout=T, fatal_is_violation=True)],
+        race_anchor=r"internal/(machine|engine/command/compiler)|bluele/gcache",
+        thresholds={"quick": {"programs": 3000, "ref_ok": 900, "rule_breaking": 300, "cached_executions": 30000, "rounds_with_evictions": 20,
+                              "g_src_allotment": 50, "g_src_maxed": 50, "g_src_inorder": 50, "g_dest_inorder": 50, "g_dest_allotment": 50, "g_dest_kept": 50,
+                              "g_send_all": 50, "g_var_balance": 50, "g_var_meta_account": 50, "g_portion_variable": 50, "g_stmt_save": 50, "g_stmt_set_account_meta": 50},
+                    "thorough": {"programs": 350000, "ref_ok": 100000, "rule_breaking": 30000, "cached_executions": 1500000}},
+        rule="differential: every generated program (whole grammar; 1/8 with exactly one static rule broken) is compiled and run by the repository "
+             "and evaluated by an independent tree-walking big-int reference; outcome class, normalised postings (zero postings dropped, consecutive "
+             "identical (src,dst,asset) merged), tx metadata and account metadata must agree; accepted programs are compiled and run a second time; "
+             "cache mode: 16 goroutines execute a pool of look-alike texts through command.NewCompiler(n), n in {1,2,3,8,1024}, under the race "
+             "detector, each result compared with a fresh compilation; distinct_nontrivial = distinct accepted (script, vars, postings)",
+        assumptions=["the reference evaluator (numgen/ref.go) is the reading of the language; validated by silence on >10^6 programs after 4 VM fixes",
+                     "normalisation rule (zero postings, adjacent merge)", "a program that triggers the known ordered-destination/kept refusal is singled out by the reference (Quirk)"],
+    ),
+    "C12": dict(
+        claim='Exploration / robustness fuzzing: byte-level, token-level, grammar-level-meaningless and hostile-environment inputs; monitors: recovered panics with repo-frame signatures, hang watchdog re-confirmed in isolation, same-class-on-rerun, canary programs for leftover state.',
+        note="Trusted: Go's recover() sees every panic of the calling goroutine; process-fatal errors are caught by the orchestrator (child exit + last logged case).",
+        technique='fuzzing with panic/hang/determinism/canary monitors',
+        engine="vmmon", level="exploration",
+        runs=[dict(mode="", shards={"quick": 8, "thorough": 16}, timeout=T, fatal_is_violation=True)],
+        thresholds={"quick": {"evaluations": 25000, "outcome_ok": 2000, "stage_compile": 5000, "stage_vars": 1000, "stage_resources": 300, "stage_balances": 1000, "stage_run": 4000,
+                              "kind_bytes": 500, "kind_tokens": 1000, "kind_mutated": 3000, "kind_wild": 5000, "kind_vars": 1500, "kind_store": 1500, "kind_readfault": 1000, "canary_rounds": 40},
+                    "thorough": {"evaluations": 2500000, "outcome_ok": 200000}},
+        rule="hostile inputs to compile/bind/resolve/run: random bytes, token soup, mutated well-formed scripts, syntactically valid but meaningless "
+             "programs (repeated accounts, several balance()/meta() lookups on one account, save on untouched accounts, broken portions, negative "
+             "arithmetic, mismatching assets), hostile variable maps, hostile store contents, injected store read errors; oracle = no panic "
+             "(recovered per case), no hang (20 s, re-confirmed 60 s solo), same class when run again, canary programs keep their outcome; "
+             "distinct_nontrivial = distinct inputs that got past the parser",
+        assumptions=["a process-fatal error of a child is attributed to the last logged case range"],
+    ),
+}
